@@ -193,6 +193,10 @@ pub struct Cfg {
     pub max_grants: u64,
     pub max_virtual_ns: u64,
     pub idle_tick_ms: u64,
+    /// adversarial bias: while another node has an eligible gate, this node's gates are passed over
+    /// in `starve_pct` percent of the decisions (drives CAS retry exhaustion)
+    pub starve_node: Option<u32>,
+    pub starve_pct: u32,
 }
 impl Default for Cfg {
     fn default() -> Self {
@@ -218,6 +222,8 @@ impl Default for Cfg {
             max_grants: 20_000,
             max_virtual_ns: 6 * 3600 * 1_000_000_000,
             idle_tick_ms: 60_000,
+            starve_node: None,
+            starve_pct: 85,
         }
     }
 }
@@ -697,6 +703,13 @@ pub fn on_park() {
             }
         }
         // grant one gate
+        let mut eligible = eligible;
+        if let Some(v) = st.cfg.starve_node {
+            let others: Vec<usize> = eligible.iter().cloned().filter(|i| st.parked[*i].node != v).collect();
+            if !others.is_empty() && others.len() < eligible.len() && st.stape.draw(100) < st.cfg.starve_pct {
+                eligible = others;
+            }
+        }
         let k = st.stape.draw(eligible.len() as u32) as usize;
         let p = st.parked.remove(eligible[k]);
         let mut fault = Fault::None;
